@@ -43,6 +43,40 @@ pub fn main(args: &[String]) -> i32 {
             }
             match b.build(dest) { Ok(()) => 0, Err(e) => { println!("ERR {e}"); 1 } }
         }
+        Some("list") => {
+            // the library's view of an archive: sorted names and sizes
+            let r = (|| -> wow_mpq::Result<Vec<String>> { let mut a = Archive::open(&args[1])?; let mut v: Vec<String> = a.list()?.into_iter().map(|e| format!("{}\t{}", e.name, e.size)).collect(); v.sort(); Ok(v) })();
+            match r { Ok(v) => { for l in v { println!("{l}"); } 0 } Err(e) => { println!("ERR {e}"); 1 } }
+        }
+        Some("mkfile") => {
+            // a small valid file of the given family (C20: valid / truncated / corrupted inputs for every sub-command)
+            let (kind, path) = (args[1].as_str(), &args[2]);
+            let bytes: Vec<u8> = match kind {
+                "dbc" => { let mut v = b"WDBC".to_vec(); for x in [2u32, 2, 8, 6] { v.extend_from_slice(&x.to_le_bytes()); }
+                    for x in [1u32, 1, 2, 3] { v.extend_from_slice(&x.to_le_bytes()); } v.extend_from_slice(b"\0ab\0c\0"); v }
+                "wdt" => { let mut w = wow_wdt::WdtFile::new(wow_wdt::version::WowVersion::WotLK); w.mwmo = Some(wow_wdt::chunks::MwmoChunk::new());
+                    if let Some(e) = w.main.get_mut(3, 4) { e.flags = 1; }
+                    let mut b = Vec::new(); let _ = wow_wdt::WdtWriter::new(&mut b).write(&w); b }
+                "wdl" => { let mut f = wow_wdl::types::WdlFile::with_version(wow_wdl::version::WdlVersion::Wotlk);
+                    f.heightmap_tiles.insert((1, 2), wow_wdl::types::HeightMapTile::new());
+                    let mut c = std::io::Cursor::new(Vec::new()); let _ = wow_wdl::parser::WdlParser::with_version(wow_wdl::version::WdlVersion::Wotlk).write(&mut c, &f); c.into_inner() }
+                _ => return 2,
+            };
+            match std::fs::write(path, bytes) { Ok(()) => 0, Err(_) => 1 }
+        }
+        Some("parse") => {
+            // does the library accept this file?  exit 0 = parses
+            let (kind, path) = (args[1].as_str(), &args[2]);
+            let data = match std::fs::read(path) { Ok(d) => d, Err(_) => return 1 };
+            let ok = std::panic::catch_unwind(|| match kind {
+                "dbc" => wow_cdbc::DbcParser::parse_bytes(&data).is_ok(),
+                "wdt" => wow_wdt::WdtReader::new(std::io::Cursor::new(&data), wow_wdt::version::WowVersion::WotLK).read().is_ok(),
+                "wdl" => wow_wdl::parser::WdlParser::new().parse(&mut std::io::Cursor::new(&data)).is_ok(),
+                "mpq" => Archive::open(path).is_ok(),
+                _ => false,
+            }).unwrap_or(false);
+            if ok { println!("parses"); 0 } else { println!("rejects"); 1 }
+        }
         Some("remove") => {
             // preparation step for compact (not traced): remove one file and flush, leaving reclaimable space
             let dest = &args[1];
